@@ -184,6 +184,79 @@ def read_face_contract():
     return Contract('parameter_reader::read_face_type_parameters', PROP, pre=pre_section, post=post, frame=lambda C: [], ret_model=rm, name='read_face_type_parameters (own contract)')
 
 
+def post_order(C):
+    """the returned list is the list as it was on leaving the loop over the <cell_type> elements (nothing reorders it afterwards)"""
+    if C.outcome != 'ret': return []
+    g = C.post_state.ghost
+    if 'loop_exit:0' not in g: return [('cell-type-loop-executed', z3.BoolVal(False))]
+    ex = g['loop_exit:0'].data
+    from spec import View
+    xv = View(C.e, ex)
+    lst = [v for k, v in ex.env.items() if C.e.var_names.get(k) == 'cell_type_lst'][0].ref
+    n = C.new
+    k = z3.Int('any_position')
+    return [('returned-list-has-the-length-built-by-the-loop', n.len(C.ret) == xv.len(lst)),
+            ('returned-list-keeps-the-order-built-by-the-loop', z3.Implies(z3.And(k >= 0, k < xv.len(lst)), n.at(C.ret, k, 'int') == xv.at(lst, k, 'int')))]
+
+
+def cell_loop_post(C):
+    o, n = C.old, C.new
+    lst = lv(C, 'cell_type_lst').ref
+    k = o.len(lst)
+    if C.outcome not in (None, 'ret', 'continue', 'end'): return []
+    cp = lv(C, 'cell_parameters', C.post_state).ref
+    sec = lv(C, 'cell_type_section').ref
+    j = z3.Int('earlier_cell_type')
+    child, nxt, text = xml(C.e)
+    return [('cell-type-appended-at-the-end', z3.And(n.len(lst) == k + 1, n.at(lst, k, 'int') == cp)),
+            ('appended-cell-type-is-the-one-read-from-this-element', n.f(cp, 'cell_type_parameters.mass_density_') == conv(C.e, 'real', text(child(sec, sid(C, 'cell_mass_density'))))),
+            ('earlier-cell-types-keep-their-position', z3.Implies(z3.And(j >= 0, j < k), n.at(lst, j, 'int') == o.at(lst, j, 'int')))]
+
+
+def read_cell_contract():
+    def post(C):
+        return [(nm, g) for (nm, g) in post_cell_type(C) if nm.startswith('value:cell_mass_density')] + [('fresh-object', C.ret.ref < 0)]
+    def rm(C, st):
+        return Ptr(C.e.new_object(), 'cell_type_parameters')
+    return Contract('parameter_reader::read_cell_type_parameters', PROP, pre=pre_section, post=post, frame=lambda C: [], ret_model=rm, name='read_cell_type_parameters (own contract)')
+
+
+# ---- X4: the values govern the run they are named after (constructors of the consumers) ---------------------------------------
+GSP = 'global_simulation_parameters.'
+
+
+def post_time_integrator(C):
+    n = C.new; sp = C.arg('sim_parameters')
+    return [('time-step-is-the-time_step-parameter', n.f(C.this, 'time_integration_scheme.dt_') == n.f(sp, GSP + 'time_step_')),
+            ('damping-is-the-damping_coefficient-parameter', n.f(C.this, 'time_integration_scheme.damping_coeff_') == n.f(sp, GSP + 'damping_coefficient_')),
+            ('simulated-time-starts-at-zero', n.f(C.this, 'time_integration_scheme.simulation_time_') == 0)]
+
+
+def post_contact_ctor(C):
+    n = C.new; sp = C.arg('sim_parameters')
+    ca = n.f(sp, GSP + 'contact_cutoff_adhesion_'); cr = n.f(sp, GSP + 'contact_cutoff_repulsion_')
+    CM = 'contact_model_abstract.'
+    mx = z3.If(ca > cr, ca, cr)
+    return [('adhesion-cutoff', z3.And(n.f(C.this, CM + 'interaction_cutoff_adhesion_') == ca, n.f(C.this, CM + 'interaction_cutoff_square_adhesion_') == ca * ca)),
+            ('repulsion-cutoff', z3.And(n.f(C.this, CM + 'interaction_cutoff_repulsion_') == cr, n.f(C.this, CM + 'interaction_cutoff_square_repulsion_') == cr * cr)),
+            ('largest-cutoff-squared', n.f(C.this, CM + 'max_interaction_cutoff_square_') == mx * mx),
+            ('bounding-box-padding-is-the-largest-cutoff', n.f(C.this, CM + 'aabb_padding_') == mx),
+            ('voxel-size-covers-three-edge-lengths-plus-twice-the-padding', n.f(n.sub(C.this, CM + 'grid_'), 'uspg_abstract.voxel_size_') == 3 * n.f(sp, GSP + 'min_edge_len_') + 2 * mx)]
+
+
+def pre_contact_ctor(C):
+    o = C.old; sp = C.arg('sim_parameters')
+    return [('cutoffs-positive', z3.And(o.f(sp, GSP + 'contact_cutoff_adhesion_') > 0, o.f(sp, GSP + 'contact_cutoff_repulsion_') > 0))]
+
+
+def post_lmr_ctor(C):
+    n = C.new
+    L = 'local_mesh_refiner.'
+    return [('edge-length-band', z3.And(n.f(C.this, L + 'l_min_') == C.val('l_min'), n.f(C.this, L + 'l_max_') == C.val('l_max'),
+                                        n.f(C.this, L + 'l_min_squared_') == C.val('l_min') * C.val('l_min'), n.f(C.this, L + 'l_max_squared_') == C.val('l_max') * C.val('l_max'))),
+            ('edge-swap-switch', n.f(C.this, L + 'enable_edge_swap_operation_') == C.val('enable_edge_swap_operation'))]
+
+
 def build(reg):
     reg.add(Contract('parameter_reader::get_string_value', PROP, pre=pre_gsv, post=post_gsv, safety={'null-deref'}, assigns=[]))
     reg.add(Contract('parameter_reader::read_numerical_parameters', PROP, post=post_numerical, split_heap_ifs=False))
@@ -191,3 +264,35 @@ def build(reg):
     reg.add(Contract('parameter_reader::read_face_type_parameters', PROP, pre=pre_section, post=post_face_type))
     reg.add(Contract('parameter_reader::read_biomechanical_parameters', PROP, pre=face_loop_pre, post=face_loop_post, slice_loop=1, use=[read_face_contract()],
                      name='parameter_reader::read_biomechanical_parameters::<face type loop body>'))
+    reg.add(Contract('time_integration_scheme::time_integration_scheme', PROP, signature='global_simulation_parameters', post=post_time_integrator))
+    reg.add(Contract('contact_model_abstract::contact_model_abstract', PROP, signature='global_simulation_parameters', pre=pre_contact_ctor, post=post_contact_ctor))
+    reg.add(Contract('local_mesh_refiner::local_mesh_refiner', PROP, signature='(const double, const double, const bool)', post=post_lmr_ctor))
+    reg.add_loop(LoopContract('parameter_reader::read_biomechanical_parameters', 0, lambda L: [], modifies=['*']))
+    def face_vec(L):
+        cp = L.var('cell_parameters').ref
+        return [L.cur.sub(cp, 'cell_type_parameters.face_types_')]
+    FT = ['face_type_parameters.' + f for (_, f, _, _) in FACE_TYPE]
+    reg.add_loop(LoopContract('parameter_reader::read_biomechanical_parameters', 1, lambda L: [], modifies=FT + [('vec.len', face_vec), ('vec.epoch', face_vec)]))
+    reg.add(Contract('parameter_reader::read_biomechanical_parameters', PROP, post=post_order, use=[read_cell_contract(), read_face_contract()],
+                     name='parameter_reader::read_biomechanical_parameters(order)'))
+    reg.add(Contract('parameter_reader::read_biomechanical_parameters', PROP, pre=lambda C: [('section-non-null', lv(C, 'cell_type_section').ref != 0)],
+                     post=cell_loop_post, slice_loop=0, use=[read_cell_contract(), read_face_contract()],
+                     name='parameter_reader::read_biomechanical_parameters::<cell type loop body>'))
+
+
+EXPLANATION = ("Contracts on the parameter reader over a facade: the XML document is three uninterpreted functions (first child by tag, next sibling "
+               "by tag, text possibly null), strings are identities of their content, std::stod/std::stoi are uninterpreted functions of the text "
+               "that may throw. For read_numerical_parameters, read_cell_type_parameters and read_face_type_parameters: on normal return every "
+               "tag of the documented table is present, the field named after it (table written from the documentation) holds the converted "
+               "text, INF in any case maps to +infinity for max_inner_pressure / avg_division_volume, the documented sign constraints hold, "
+               "sampling period >= time step; every exceptional exit is parameter_reader_exception or std::invalid_argument (a missing tag is "
+               "therefore an exception); get_string_value never builds a string from a null text and never terminates. Order: an arbitrary "
+               "iteration of the <face_type> loop appends the face type read from that element at the end and keeps earlier ones; the same for "
+               "<cell_type>; the returned list is exactly the list built by the loop. Wiring: constructors of the time integrator (dt, damping), "
+               "the contact model (cut-offs, padding, voxel size) and the mesh refiner (length band, swap switch).")
+ASSUMPTIONS = ["tinyxml2 facade: FirstChildElement / NextSiblingElement / GetText behave as functions of (element, tag name); an element without text has a null GetText()",
+               "strings are modelled by the identity of their content; lower_string is an uninterpreted function with stod(lower(s)) read as the case-insensitive value",
+               "std::stod / std::stoi: uninterpreted functions of the content, throwing std::invalid_argument / std::out_of_range (both derive from std::exception) when not convertible",
+               "for-loop over sibling elements visits them in document order (tinyxml2), so per-iteration 'append at the end' gives order preservation"]
+UNVERIFIED = ["solver::solver forwarding min_edge_len_ (l_min) and 3*min_edge_len_ (l_max) to the mesh refiner, run()/save_mesh() reading simulation_duration_/sampling_period_ (C19 covers the latter)",
+              "tinyxml2 itself and the std::string conversions"]
